@@ -233,6 +233,11 @@ func genQRCase(t *rapid.T) QRCase {
 // reader. It reports encoder rejection as (nil, false); any structural problem fails the
 // test under the given property/check name.
 func qrDecodeChecked(t TB, prop, check string, c QRCase) (*ref.QRResult, bool) {
+	if n := len(c.Content); n >= 5 && n <= 200 && (c.Mode == 3 || c.Mode == 0) {
+		tw := c
+		tw.Content = BStr(crcTwin(c.Content, n))
+		qrEncode(tw)
+	}
 	bc, err, pv := qrEncode(c)
 	if pv != nil {
 		failf(t, prop, check, c, "%v", pv)
@@ -240,6 +245,7 @@ func qrDecodeChecked(t TB, prop, check string, c QRCase) (*ref.QRResult, bool) {
 	if err != nil || nilBarcode(bc) {
 		return nil, false
 	}
+	disturb("qr")
 	m, merr := matrix2D(bc)
 	if merr != nil {
 		failf(t, prop, check, c, "%v", merr)
